@@ -262,6 +262,13 @@ MainLoop:
 			// (because it might send too late to keep the session up) and set up a new
 			// send timer based on the remote's preferences.
 			oldState := s.getLocalState()
+			if s.remoteState == stateAdminDown {
+				// RFC 5880 6.8.6: a received AdminDown is not the local administrative event (which
+				// parks the session in AdminDown until a local AdminUp); it takes the local session
+				// to Down, exactly like an expired detection timer does.
+				s.transition(ctx, eventTimer)
+				continue
+			}
 			s.transition(ctx, event(s.remoteState))
 			if oldState == stateDown && s.getLocalState() != stateDown {
 				s.desiredMinTXInterval = s.DesiredMinTxInterval
